@@ -164,7 +164,7 @@ def run_case(case):
         d = snaps[-1][i][1]
         dj = json.dumps(d)
         # an interval without start is defined from its first query on: a fresh one has a different grid
-        fresh = prod_impl.build(d) if 'unknown' not in dj and '["interval", null' not in dj else None
+        fresh_ok = 'unknown' not in dj and '["interval", null' not in dj
         B = 0.15
         for dt in case['probes']:
             a = prod_impl.query(p, dt, B)
@@ -175,7 +175,8 @@ def run_case(case):
                     prod_impl.query(_get_producer(objs[j]), dt + 12345, B)
                     prod_impl.query(objs[j]._producer, dt - 777, B)
             b = prod_impl.query(p, dt, B)
-            c = prod_impl.query(fresh, dt, B) if fresh is not None else None
+            # a trigger built afresh for THIS query: it has no history at all
+            c = prod_impl.query(prod_impl.build(d), dt, B) if fresh_ok else None
             orig = prod_impl.query(objs[i]._producer, dt, B)
             queries.append([i, dt, a, b, c, orig])
         # a copy taken AFTER the object has been queried (what offset / only_on / group / JobBuilder.at do with a
